@@ -79,7 +79,37 @@ struct StreamLog {
     item_after_end: bool,
 }
 
-pub fn run_session(s: &Session, fault: Fault, schedule: Vec<u8>) -> Result<(usize, bool), Failure> {
+/// where each inbound item ends in the byte stream (the sizes do not depend on the serials)
+pub fn layout(s: &Session) -> Vec<usize> {
+    let (_, sh) = SSocket::new();
+    let mut p = Peer::new(sh, false);
+    let dummy: Vec<RMsg> = (0..s.ncalls).map(|_| RMsg::new(msg::T_CALL, 5)).collect();
+    let mut n = 0;
+    s.items
+        .iter()
+        .map(|it| {
+            n += build_item(&mut p, it, &dummy).build().bytes.len();
+            n
+        })
+        .collect()
+}
+
+/// `lazy`: the rule stream is given a queue of exactly as many messages as will have arrived for it
+/// before the fault, and is not polled before the transport has failed (a full queue at the moment
+/// of failure must lose nothing)
+pub fn run_session(s: &Session, fault: Fault, schedule: Vec<u8>, lazy: bool) -> Result<(usize, bool), Failure> {
+    let lazy_cap = match fault {
+        Fault::Read { pos, .. } if lazy => {
+            let ends = layout(s);
+            let k = s.items.iter().zip(&ends).filter(|(it, e)| **e <= pos && matches!(it, Item::SigA(_))).count();
+            if k >= 1 { Some(k) } else { None }
+        }
+        _ => None,
+    };
+    let gate = crate::c_drop::Gate::default();
+    if lazy_cap.is_none() {
+        gate.open();
+    }
     let Some((conn, sh)) = new_p2p(None) else { return Err(Failure::new("harness: connection")) };
     let mut sched = Sched::new();
     sched.spawn_ticker("exec", conn.executor().clone());
@@ -91,7 +121,7 @@ pub fn run_session(s: &Session, fault: Fault, schedule: Vec<u8>) -> Result<(usiz
     let m2 = made.clone();
     let a = sched.spawn("mkstreams", async move {
         let s0 = zbus::MessageStream::from(&conn2);
-        let s1 = zbus::MessageStream::for_match_rule("type='signal',interface='c38.A'", &conn2, None).await.expect("stream");
+        let s1 = zbus::MessageStream::for_match_rule("type='signal',interface='c38.A'", &conn2, lazy_cap).await.expect("stream");
         m2.lock().unwrap().extend([s0, s1]);
     });
     if sched.run(&mut || sch.next(), 100_000, &mut |x| x.done(a)) != Outcome::Goal {
@@ -101,7 +131,11 @@ pub fn run_session(s: &Session, fault: Fault, schedule: Vec<u8>) -> Result<(usiz
     for (i, st) in made.lock().unwrap().drain(..).enumerate() {
         let log = logs[i].clone();
         let mut st = st;
+        let g = gate.clone();
         stream_actors.push(sched.spawn(&format!("stream{i}"), async move {
+            if i == 1 {
+                g.wait().await;
+            }
             loop {
                 match st.next().await {
                     Some(Ok(m)) => {
@@ -157,8 +191,17 @@ pub fn run_session(s: &Session, fault: Fault, schedule: Vec<u8>) -> Result<(usiz
     let items = s.items.clone();
     let ncalls = s.ncalls;
     let mut expected_items: Vec<Item> = vec![];
-    sched.idle_grace = 2;
+    sched.idle_grace = if lazy_cap.is_some() { 400 } else { 2 };
+    let mut turns_after_fed = 0usize;
     let oc = sched.run(&mut || sch.next(), 400_000, &mut |x| {
+        if fed {
+            turns_after_fed += 1;
+            if turns_after_fed == 300 {
+                // everything the transport delivered before failing has been taken in: now the
+                // late reader starts
+                gate.open();
+            }
+        }
         for i in peer.pump() {
             let m = peer.out[i].clone();
             if m.mtype == msg::T_CALL {
@@ -268,7 +311,9 @@ pub fn run_session(s: &Session, fault: Fault, schedule: Vec<u8>) -> Result<(usiz
 
 /// case bytes: [fault kind][pos lo][pos hi][session bytes...]
 pub fn c38_case(src: &mut Src, obs: &mut Obs) -> CaseResult {
-    let kind = src.u8() % 3;
+    let kb = src.u8();
+    let kind = kb % 3;
+    let lazy = (kb / 3) % 2 == 1;
     let pos = src.u16() as usize;
     let sbytes: Vec<u8> = src.rest().to_vec();
     let mut s2 = Src::new(&sbytes);
@@ -280,7 +325,10 @@ pub fn c38_case(src: &mut Src, obs: &mut Obs) -> CaseResult {
         1 => Fault::Read { pos: pos % (len + 1), error: true },
         _ => Fault::Write { call: pos % s.ncalls },
     };
-    let (complete, inside) = run_session(&s, fault, sched_bytes)?;
+    let (complete, inside) = run_session(&s, fault, sched_bytes, lazy)?;
+    if lazy && matches!(fault, Fault::Read { .. }) {
+        obs.label("late-reader-with-a-full-queue");
+    }
     obs.label(match fault {
         Fault::Read { error: false, .. } => "read-eof",
         Fault::Read { error: true, .. } => "read-error",
